@@ -200,6 +200,8 @@ type FuncFacts struct {
 
 	phiIneqs []*Affine
 
+	loop, loopKnown bool
+
 	// Assume holds function-wide facts supplied by a rule (caller context proven at every call site).
 	Assume FactSet
 	// Implications are conditional facts supplied by a rule (established callee postconditions).
@@ -244,6 +246,21 @@ func (ff *FuncFacts) Prune(assume ...Fact) *FuncFacts {
 				n.removed[[2]int{b.Index, b.Succs[0].Index}] = true
 			}
 		}
+		if c.Op == "EQ" && len(assume) > 0 && c.A != "nil" && c.B != "nil" && !strings.HasPrefix(c.A, "const(") && !strings.HasPrefix(c.B, "const(") {
+			known := ff.T.ineqs(FactSet(assume))
+			x, y := ff.T.affOfTerm(c.A), ff.T.affOfTerm(c.B)
+			lt := y.Sub(x)
+			lt.C--
+			gt := x.Sub(y)
+			gt.C--
+			if len(known) > 0 && (proveGE0(lt, known, 3) || proveGE0(gt, known, 3)) { // x≠y
+				if c.Pos {
+					n.removed[[2]int{b.Index, b.Succs[0].Index}] = true
+				} else {
+					n.removed[[2]int{b.Index, b.Succs[1].Index}] = true
+				}
+			}
+		}
 		for _, a := range assume {
 			if c == a { // condition known true → false edge impossible
 				n.removed[[2]int{b.Index, b.Succs[1].Index}] = true
@@ -266,7 +283,71 @@ func (ff *FuncFacts) Prune(assume ...Fact) *FuncFacts {
 		}
 	}
 	n.recompute()
+	// fold tests of a phi against nil once the pruning has left only nil (or
+	// only never-nil) incoming values: `if idxErr… {err = nil}; if err != nil`.
+	for round := 0; round < 4; round++ {
+		changed := false
+		for _, b := range ff.Fn.Blocks {
+			if !n.reach[b] {
+				continue
+			}
+			iff, ok := lastInstr(b).(*ssa.If)
+			if !ok {
+				continue
+			}
+			bo, ok := iff.Cond.(*ssa.BinOp)
+			if !ok || (bo.Op != token.EQL && bo.Op != token.NEQ) {
+				continue
+			}
+			var ph *ssa.Phi
+			if p, ok := bo.X.(*ssa.Phi); ok && isNilConst(bo.Y) {
+				ph = p
+			} else if p, ok := bo.Y.(*ssa.Phi); ok && isNilConst(bo.X) {
+				ph = p
+			}
+			if ph == nil {
+				continue
+			}
+			allNil, allNonNil, any := true, true, false
+			for i, e := range ph.Edges {
+				pred := ph.Block().Preds[i]
+				if !n.reach[pred] || n.removed[[2]int{pred.Index, ph.Block().Index}] {
+					continue
+				}
+				any = true
+				if !isNilConst(e) {
+					allNil = false
+				}
+				if !neverNil(e) {
+					allNonNil = false
+				}
+			}
+			if !any || allNil == allNonNil {
+				continue
+			}
+			isNil := allNil
+			condTrue := isNil == (bo.Op == token.EQL)
+			kill := b.Succs[1]
+			if !condTrue {
+				kill = b.Succs[0]
+			}
+			key := [2]int{b.Index, kill.Index}
+			if !n.removed[key] {
+				n.removed[key] = true
+				changed = true
+			}
+		}
+		if !changed {
+			break
+		}
+		n.recompute()
+	}
 	return n
+}
+
+func isNilConst(v ssa.Value) bool {
+	c, ok := v.(*ssa.Const)
+	return ok && c.Value == nil
 }
 
 func lastInstr(b *ssa.BasicBlock) ssa.Instruction {
